@@ -738,7 +738,35 @@ def make_dataset(ex, name, env, owner="caller", **kw):
         da = make_dataarray(ex, f"{name}.{vname}", data=data)
         da.ghost["owner"] = owner
         da.fields["attrs"] = SymDict(f"{name}.{vname}.attrs", closed=False, owner=owner)
+        # typed attributes: attrs={'var': {'start_index': 'absent_or(int)'}} (absent_or: the attribute may be missing)
+        for aname, aspec in ((kw.get("attrs") or {}).get(vname) or {}).items():
+            if aspec.startswith("absent_or(") and aspec.endswith(")"):
+                if ex.nondet(2) == 0:
+                    da.fields["attrs"].entries[aname] = [False, V.UNSET]
+                    continue
+                aspec = aspec[len("absent_or("):-1]
+            da.fields["attrs"].entries[aname] = [True, make_value(ex, aspec, f"{name}.{vname}.{aname}", env)]
         ds.fields["vars"].entries[vname] = [True, da]
+    for vname in (kw.get("opaque_vars") or ()):
+        # present variables of unknown content (only passed on to library calls)
+        da = make_dataarray(ex, f"{name}.{vname}")
+        da.ghost["owner"] = owner
+        da.fields["attrs"] = SymDict(f"{name}.{vname}.attrs", closed=False, owner=owner)
+        ds.fields["vars"].entries[vname] = [True, da]
+    for vname in (kw.get("absent_vars") or ()):
+        ds.fields["vars"].entries[vname] = [False, V.UNSET]
+    return ds
+
+
+@model("xarray.Dataset", "class:Dataset")
+def xr_dataset(ex, args, kwargs, node):
+    """xr.Dataset(): a new, empty dataset owned by the function that creates it"""
+    if args or kwargs:
+        raise Unsupported("xr.Dataset(...) with arguments")
+    ds = Obj("Dataset")
+    ds.fields["vars"] = SymDict(fresh_name("new_ds") + ".vars", closed=True, owner="fresh")
+    ds.fields["dims"] = SymDict(fresh_name("new_ds") + ".dims", closed=False, owner="fresh")
+    ds.ghost["owner"] = "fresh"
     return ds
 
 
